@@ -116,7 +116,21 @@ def relay_lemmas(ex):
         ex_.assume(t >= 0)
         env['timeout'] = VReal(t)
         env['force'] = VBool(False)
-        ex_.ghost['__call_hooks__'] = {'pyworkers.utils.foreign_raise': raise_hook(ex_)}
+        ex_.ghost['released_early'] = False
+
+        def release_hook(i2, fi, a, k, n, s):
+            # _release_child() is the overridable hook that wakes a child waiting for input (persistent kinds put the end marker None): a woken child may
+            # finish ON ITS OWN before anything else happens in this thread
+            if len(ex_.ghost['raised']) == 0:
+                ex_.ghost['released_early'] = True
+            return NONE
+        ex_.ghost['__call_hooks__'] = {'pyworkers.utils.foreign_raise': raise_hook(ex_), W + '._release_child': release_hook}
+
+    def raise_before_release(c):
+        return z3.BoolVal(not c.ex.ghost['released_early'])
+    raise_before_release.__doc__ = ('the request is raised in the child BEFORE the child is released from waiting for input (_release_child): a child woken first could read '
+                                    'the end marker and finish cleanly - the request would then find no thread (ValueError from foreign_raise) and the outcome would be a '
+                                    'normal one instead of WorkerTerminatedError')
 
     def thread_post(c):
         ex_ = c.ex
@@ -132,7 +146,7 @@ def relay_lemmas(ex):
                            'on a worker known or found dead it raises nothing')
     out.append((Contract(TW + '.terminate', lid='L1-thread', name='C03.L1-thread ThreadWorker.terminate raises WorkerTerminatedError once, in the worker\'s own thread',
                          params={'self': ('const', None), 'timeout': ('const', None), 'force': ('const', None)}, self_class=TW, setup=thread_setup, returns='bool',
-                         ensures=[thread_post], raises={}, raises_only=[], options={'recv_closed_check': False}), None))
+                         ensures=[thread_post], raises={}, raises_only=[], all_exits=[raise_before_release], options={'recv_closed_check': False}), None))
 
     # ---- process kind / remote backend: the child's control thread
     def ctrl_setup(cls, persistent_attrs=False):
@@ -293,6 +307,9 @@ def scenario_from(ob):
 
 def replay(ob, repo):
     from pyvc.native import run_script
+    if 'L1-thread' in ob.get('lemma', ''):
+        r = run_script('c03_relay_native.py', {'lemma': 'L1-thread'}, repo, timeout=120)
+        return bool(r.get('violates')), r
     sc = scenario_from(ob)
     r = run_script('c03_native.py', sc, repo, timeout=120)
     return bool(r.get('violates')), r
